@@ -42,7 +42,7 @@ def doc(s, n):
     m["web"] = web
     sym = D("symbol"); sym["name"] = "sq"; sym["type"] = "vector"; sym["points"] = [(1, 1), (n, 2)]
     m["symbols"] = [sym]
-    st = D("style"); st["width"] = n; st["pattern"] = [(2, 4)]; st["color"] = [1, 2, 3]
+    st = D("style"); st["symbol"] = 7; st["width"] = n; st["pattern"] = [(2, 4)]; st["color"] = [1, 2, 3]
     lb = D("label"); lb["size"] = n
     cl = D("class"); cl["name"] = s; cl["styles"] = [st]; cl["labels"] = [lb]
     ft = D("feature"); ft["points"] = [[(1, 1), (2, 2)], [(3, 3), (4, 4)]]
@@ -83,6 +83,7 @@ def spec(s, n, Q):
         (2, "open", "CLASS", None, None),
         (3, "kv", "NAME", q(s), "class"),
         (3, "open", "STYLE", None, None),
+        (4, "kv", "SYMBOL", "7", "style"),
         (4, "kv", "WIDTH", repr(n), "style"),
         (4, "open", "PATTERN", None, None), (5, "raw", "2 4", None, None), (4, "end", "PATTERN", None, None),
         (4, "kv", "COLOR", "1 2 3", "style"),
@@ -100,7 +101,7 @@ def spec(s, n, Q):
     ]
 
 # longest simple keyword per object (key-value blocks: the quoted key)
-LONGEST = {"map": 9, "web": 9, "md": 11, "symbol": 4, "layer": 10, "class": 8, "style": 5, "label": 4, "co": 9, "layer2": 6}
+LONGEST = {"map": 9, "web": 9, "md": 11, "symbol": 4, "layer": 10, "class": 8, "style": 6, "label": 4, "co": 9, "layer2": 6}
 
 
 def layout(s, n, indent, spacer, Q, end_comment, align):
